@@ -107,6 +107,7 @@ func runC20(cfg *config) error {
 	res.Rule = "random op sequences (EnsureChanges incl. invalid ranges, ExpandRange, ReplaceOrInsert, RemoveChangesByActor, ChangesInRange) against the real mongo.ChangeStore over a ground-truth table with holes; 2/3 disciplined (caller obligations of mongo/client.go respected; transparency and no-refetch oracles evaluated), 1/3 free (model/implementation tie only); non-trivial = at least one Ensure answered partly from cache over a hole or a previously fetched range; distinct = distinct rendered case"
 	var files []string
 	const shard = 400
+	res.CaseShard = shard
 	for k := 0; k*shard < len(cases); k++ {
 		hi := (k + 1) * shard
 		if hi > len(cases) {
